@@ -331,8 +331,11 @@ func c12DrawScenario(t *rapid.T, run *c12Run) {
 		a.script = map[string]string{"p3": rapid.SampledFrom([]string{"wrong-shares-for-peer", "garbage-shares-for-peer"}).Draw(t, "scnShare"),
 			"p7": rapid.SampledFrom([]string{"silent", "points-random"}).Draw(t, "scnP7"), "p8": "silent", "p10": "silent"}
 		a.scriptPeer = b.idx
-		b.script = map[string]string{"p4": "withhold-against-peer"}
-		if rapid.Bool().Draw(t, "scnBSilentReveal") {
+		// b's own (honest) code disqualified a when it saw the bad share, so
+		// its honest phase 10 message would not reveal the key for a; a
+		// colluding b reveals it as if nothing had happened (or stays silent)
+		b.script = map[string]string{"p4": "withhold-against-peer", "p10": "reveal-add-peer"}
+		if rapid.IntRange(0, 2).Draw(t, "scnBSilentReveal") == 0 {
 			b.script["p10"] = "silent"
 		}
 		b.scriptPeer = a.idx
@@ -427,6 +430,17 @@ func (r *c12Run) scripted(t *rapid.T, m *c12Member, out []net.TaggedMarshaler, b
 				continue
 			}
 			alt.publicKeySharePoints = append(alt.publicKeySharePoints, new(bn256.G2).ScalarBaseMult(c12RandScalar()))
+		}
+		return []net.TaggedMarshaler{alt}
+	case "reveal-add-peer":
+		msg := out[0].(*MisbehavedEphemeralKeysMessage)
+		st := m.st.(*keyRevealState)
+		alt := &MisbehavedEphemeralKeysMessage{senderID: msg.senderID, sessionID: msg.sessionID, privateKeys: map[group.MemberIndex]*ephemeral.PrivateKey{}}
+		for k, v := range msg.privateKeys {
+			alt.privateKeys[k] = v
+		}
+		if kp, ok := st.member.ephemeralKeyPairs[m.scriptPeer]; ok {
+			alt.privateKeys[m.scriptPeer] = kp.PrivateKey
 		}
 		return []net.TaggedMarshaler{alt}
 	case "reveal-omit-peer", "reveal-wrong-key-peer":
